@@ -831,4 +831,6 @@ def r_sibling_periodic(ctx):
                       f"{sorted({show(norm(_generic_periodic(x[2])))[:200] for x in b})[:2]}: they differ for {wit['values'] if wit else '?'}", loc(a[0][1]))
 
 
-RULES = [r_rc_relation, r_attr, r_union_exh, r_union_exh_raise, r_sibling_periodic, r_periodic_core, lambda ctx: r_loopvar(ctx, bases=("Constraint",)), r_periodic_struct]
+RULES = [r_rc_relation, r_attr, r_union_exh, r_union_exh_raise, r_sibling_periodic, r_periodic_core, lambda ctx: r_loopvar(ctx, bases=("Constraint",)), r_periodic_struct,
+         lambda ctx: __import__("rules.resources", fromlist=["x"]).r_declared_reaches_solver(ctx),
+         lambda ctx: __import__("rules.validation", fromlist=["x"]).r_dup_name(ctx, only=('add_constraint',))]
